@@ -211,6 +211,9 @@ def check_C04(run):
     # skipCopySameType is the one setting that permits sharing: its *effect* per method / generated helper (address labels)
     import fam_text
     fam_text.witness(run)
+    # field mappings that hand the source itself to a pointer field (map . F) must copy as well
+    import fam_struct
+    fam_struct.pipeline(run)
     run.assumptions.append("the race detector observes the schedules that occur in 4 goroutines x 25 calls per input; the universal claim rests on role A (result cells are fresh) plus B1 address labelling")
     return run.finish("every generating scenario executed with address labelling (result cells inside input allocations are labelled as shared) and once more under -race "
                       "with 4 goroutines x 25 calls on one shared source value; distinct = distinct (type pair, settings, input)",
